@@ -35,6 +35,8 @@ def gen_cases(pid, tier, seed, wd):
             c = enginegen.gen_case(rng, cid, dbdir=wd, cancel_p=0.1, restart_p=0.12, db_p=0.4, nsteps=(4, 9), repeat_p=0.35)
         elif pid == "C03":
             c = enginegen.gen_case(rng, cid, dbdir=wd, cancel_p=0.1, restart_p=0.35, db_p=1.0, adversarial=True, ver_p=0.2)
+        elif pid == "C05" and i % 8 == 6:
+            c = enginegen.gen_waiting_cancel_case(rng, cid, dbdir=wd)
         elif pid == "C05" and i % 8 == 7:
             c = enginegen.gen_stranded_case(rng, cid, dbdir=wd)
         elif pid == "C05":
